@@ -2258,6 +2258,23 @@ func (ex *Exec) exit() {
 	if ex.frameActive {
 		ex.frame(nil, env, pos)
 	}
+	for _, c := range vc.fc.own("preserves") {
+		if !(hasProp(c, ex.prop) || len(c.Props) == 0) {
+			continue
+		}
+		arr, refs, err := vc.preservesLoc(vc.entryEnv, c.Expr)
+		if err != nil {
+			vc.ctx.contractError(vc.fc, c, err)
+			continue
+		}
+		sk := vc.fresh("pres.r", "Int")
+		var ex2 []string
+		for _, r := range refs {
+			ex2 = append(ex2, fmt.Sprintf("(not (= %s %s))", sk, r))
+		}
+		ex.oblig("preserves", strings.Fields(c.Expr)[0], "", pos, fmt.Sprintf("(=> (and %s (>= %s 0) (< %s alloc0) %s) (= (select %s %s) (select %s %s)))",
+			g, sk, sk, strings.Join(ex2, " "), h.get(arr), sk, ex.entry.get(arr), sk), []string{ex.prop})
+	}
 }
 
 // modLoc is one location a contract allows to be modified.
